@@ -85,17 +85,17 @@ void HttpServer::serve(Socket client)
 			if (response.code() == 405)
 				response.setHeader("Allow", _methods);
 
+			if (response.containsFile() && !File(response.text()).isFile())
+			{
+				// from here on an ordinary body: written below, and the connection is closed below when the request asks for it
+				response.setCode(404);
+				response.setHeader("Content-Type", "text/plain");
+				response.put("Not found");
+			}
+
 			if (response.containsFile())
 			{
 				File file(response.text());
-				if (!file.isFile())
-				{
-					response.setCode(404);
-					response.setHeader("Content-Type", "text/plain");
-					response.put("Not found");
-					response.write();
-					continue;
-				}
 
 				String mime = _mimetypes.get(file.extension(), "text/plain");
 				if (!response.hasHeader("Date")) // what the handler set stays, as for Cache-Control below
